@@ -106,6 +106,12 @@ func Dec(s string) string {
 	return b.String()
 }
 
+var extBuf []string
+
+// Ext records an `ext` line (graph of an external function, or an acceptor input) that is written
+// to the transcript after the current `op` line and before its `obs` line.
+func Ext(format string, a ...any) { extBuf = append(extBuf, fmt.Sprintf(format, a...)) }
+
 // Case is one generated case: header arguments and operation lines (without the "op " prefix).
 type Case struct {
 	Header string
@@ -208,7 +214,11 @@ func Main(c Component, facts func() map[string]string) {
 				if r == nil {
 					continue
 				}
+				extBuf = extBuf[:0]
 				obs, has := doOne(r, f[1:])
+				for _, e := range extBuf {
+					fmt.Fprintf(out, "ext %s\n", e)
+				}
 				if has {
 					fmt.Fprintf(out, "obs %s\n", obs)
 				}
